@@ -528,16 +528,18 @@ class Model(Object):
         if len(bad_ids) != 0:
             raise ValueError(f"invalid identifiers in {repr(bad_ids)}")
 
-        for x in metabolite_list:
-            x._model = self
-        self.metabolites += metabolite_list
-
         # from cameo ...
+        # Create the constraints first: this raises for an identifier that is no
+        # valid constraint name before anything is changed.
         to_add = []
         for met in metabolite_list:
             if met.id not in self.constraints:
                 constraint = self.problem.Constraint(Zero, name=met.id, lb=0, ub=0)
                 to_add += [constraint]
+
+        for x in metabolite_list:
+            x._model = self
+        self.metabolites += metabolite_list
 
         self.add_cons_vars(to_add)
 
